@@ -460,7 +460,7 @@ def traj_cli(run, case, rng, work):
         argv = C01.move_to_config(rng, argv, out_dir, n_positional)
     if case.get("exe"):
         # the real executable in a fresh interpreter
-        pr = cli.run_subprocess("traj", argv, out_dir, os.environ["HOME"])
+        pr = cli.run_subprocess("traj", argv, out_dir, os.environ["HOME"], closed_stdout=bool(case.get("closed_stdout")))
         res = cli.CliResult()
         res.exit = pr.returncode
         got = None if pr.returncode == 0 else "exit %d" % pr.returncode
@@ -540,7 +540,7 @@ def main(run):
     for i in run.mine({"quick": 30, "thorough": 300}[run.tier]):
         k_cli(run, run.case("cli", 10**6 + i, force={k: False for k in LATTICE_OPTS}))
     for i in run.mine({"quick": 6, "thorough": 60}[run.tier]):
-        k_cli(run, run.case("cli", 3 * 10**6 + i, exe=True))
+        k_cli(run, run.case("cli", 3 * 10**6 + i, exe=True, closed_stdout=(i % 3 == 1)))
     if run.tier == "thorough":
         # bounded lattice: every subset of up to 3 options switched on, the others off
         import itertools
